@@ -11,6 +11,7 @@ import (
 	"strings"
 	"sync"
 	"testing"
+	"time"
 
 	"github.com/enbility/spine-go/api"
 	"github.com/enbility/spine-go/model"
@@ -19,15 +20,28 @@ import (
 	"verifharness/h"
 )
 
+// sndW records like h.W and lets a test look at the stack from inside the write, i.e. while the send is in flight.
+type sndW struct {
+	h.W
+	hook func(m []byte)
+}
+
+func (w *sndW) WriteShipMessageWithPayload(m []byte) {
+	w.W.WriteShipMessageWithPayload(m)
+	if w.hook != nil {
+		w.hook(m)
+	}
+}
+
 type sndWorld struct {
-	w      *h.W
+	w      *sndW
 	s      api.SenderInterface
 	local  *model.FeatureAddressType
 	hashes map[string]int // canonical (destination, command) -> abstract hash id
 }
 
 func newSndWorld() *sndWorld {
-	w := &h.W{}
+	w := &sndW{}
 	return &sndWorld{w: w, s: spine.NewSender(w), local: h.FA("loc", []uint{1}, 1), hashes: map[string]int{}}
 }
 
@@ -113,6 +127,7 @@ func runSenderHistory(r *h.Report, d *h.Driver, ops []string, corpus bool) {
 	for _, op := range ops {
 		f := strings.Fields(op)
 		var impl, line, kind string
+		var impl2, line2 string // second model op of a compound step
 		nontrivial := ""
 		switch f[0] {
 		case "req", "sub", "unsub", "bind", "unbind":
@@ -236,6 +251,45 @@ func runSenderHistory(r *h.Report, d *h.Driver, ops []string, corpus bool) {
 				sp.notifies = append(sp.notifies, wire[0])
 			}
 			kind = "notify"
+		case "notifyq":
+			// a notification that the peer answers at once: the lookup by counter happens on another goroutine while
+			// Notify is still inside the connection's write ("Notify stores the datagram before sending")
+			line = "notify"
+			inflight := "none"
+			sw.w.hook = func(m []byte) {
+				var dg model.Datagram
+				if json.Unmarshal(m, &dg) != nil || dg.Datagram.Header.MsgCounter == nil {
+					return
+				}
+				c := *dg.Datagram.Header.MsgCounter
+				res := make(chan bool, 1)
+				go func() {
+					got, err := sw.s.DatagramForMsgCounter(c)
+					res <- err == nil && got.Header.MsgCounter != nil && *got.Header.MsgCounter == c
+				}()
+				select {
+				case ok := <-res:
+					inflight = strconv.Itoa(h.B2i(ok))
+				case <-time.After(3 * time.Second):
+					inflight = "blocked"
+				}
+			}
+			ctr, err := sw.s.Notify(sw.local, dests[0], sndCmd(len(done)))
+			sw.w.hook = nil
+			wire := sw.wire()
+			done = append(done, op)
+			sp.onWire(r, done, wire)
+			if err != nil || ctr == nil || len(wire) != 1 || wire[0] != uint64(*ctr) {
+				impl = fmt.Sprintf("error %v wire=%v", err, wire)
+			} else {
+				impl = fmt.Sprint(wire[0])
+				sp.notifies = append(sp.notifies, wire[0])
+				line2, impl2 = fmt.Sprintf("get %d", wire[0]), inflight
+				if inflight == "0" {
+					r.SpecFail("notification-not-retrievable-while-in-flight", done, fmt.Sprintf("notification %d is on the connection and DatagramForMsgCounter(%d) does not find it", wire[0], wire[0]))
+				}
+			}
+			kind = "notify:answered-in-flight"
 		case "get":
 			c, _ := strconv.Atoi(f[1])
 			line = op
@@ -278,6 +332,13 @@ func runSenderHistory(r *h.Report, d *h.Driver, ops []string, corpus bool) {
 		if impl != want {
 			r.Mismatch(done, impl, want, "sender op "+op+" as "+line)
 			diverged = true
+			continue
+		}
+		if line2 != "" {
+			if want := d.Ask(line2); impl2 != want {
+				r.Mismatch(done, impl2, want, "sender op "+op+" as "+line2)
+				diverged = true
+			}
 		}
 	}
 	if diverged {
@@ -315,7 +376,11 @@ func genSenderHistory(rng interface{ Intn(int) int }, n int) []string {
 			ops = append(ops, fmt.Sprintf("other %d", rng.Intn(8)))
 			issued++
 		case x < 92:
-			ops = append(ops, "notify")
+			if rng.Intn(3) == 0 {
+				ops = append(ops, "notifyq")
+			} else {
+				ops = append(ops, "notify")
+			}
 			issued++
 		default:
 			ops = append(ops, fmt.Sprintf("get %d", 1+rng.Intn(issued+2)))
@@ -381,6 +446,15 @@ func TestSender(t *testing.T) {
 		}
 	}
 	runSenderHistory(r, d, mixed, true)
+	// every notification looked up while it is being written, below and beyond the cache size, then all of the last 100 again
+	var fly []string
+	for i := 0; i < 130; i++ {
+		fly = append(fly, "notifyq")
+	}
+	for c := 31; c <= 130; c++ {
+		fly = append(fly, fmt.Sprintf("get %d", c))
+	}
+	runSenderHistory(r, d, fly, true)
 	rng := h.Rng(13)
 	hist := h.Scale(150, 1500)
 	for i := 0; i < hist; i++ {
